@@ -68,7 +68,7 @@ func runChangedC03(r *core.CaseResult) {
 func runChangedC15(r *core.CaseResult) {
 	r.Nontrivial = true
 	dom := []any{9.0, 10.0, 100.0, "x9", "x10", "10", "5"}
-	sqls := []string{"SELECT id FROM t ORDER BY v", "SELECT id FROM t ORDER BY v DESC, id", "SELECT id FROM t WHERE v < 50", "SELECT id FROM t WHERE v IN (10, '5')"}
+	sqls := []string{"SELECT id, v FROM t ORDER BY v", "SELECT id, v FROM t ORDER BY v DESC, id", "SELECT id FROM t WHERE v < 50", "SELECT id FROM t WHERE v IN (10, '5')"}
 	n := len(dom)
 	for _, sql := range sqls {
 		for a := 0; a < n*n; a++ { // the two values before
